@@ -594,3 +594,35 @@ Definition handle_tcp_connect (input : bytes) : option (list event) :=
   end.
 
 End Session.
+
+(* ------------------------------------------------------------------------ *)
+(* What the upper layer may see from one connection (executable specification,
+   independent of the handlers): any number of connect notifications; at most
+   one new-session call; media only after an accepted publish; the end of the
+   session is reported exactly once and exactly when a new-session call was
+   accepted before; nothing after the end or after a refusal. *)
+Inductive astate := A0 | APub | ASub | ARej | ADone.
+Definition astep (s : astate) (e : event) : option astate :=
+  match s, e with
+  | A0, EvConnect _ _ => Some A0
+  | A0, EvNewPub _ _ _ _ true => Some APub
+  | A0, EvNewPub _ _ _ _ false => Some ARej
+  | A0, EvNewSub _ _ _ _ true => Some ASub
+  | A0, EvNewSub _ _ _ _ false => Some ARej
+  | APub, EvConnect _ _ => Some APub
+  | APub, EvAv _ => Some APub
+  | APub, EvDelPub => Some ADone
+  | ASub, EvConnect _ _ => Some ASub
+  | ASub, EvDelSub => Some ADone
+  | _, _ => None
+  end.
+Fixpoint arun (s : astate) (l : list event) : option astate :=
+  match l with
+  | [] => Some s
+  | e :: t => match astep s e with Some s' => arun s' t | None => None end
+  end.
+Definition shell_ok (l : list event) : bool :=
+  match arun A0 l with
+  | Some A0 | Some ARej | Some ADone => true
+  | _ => false
+  end.
